@@ -59,6 +59,7 @@ PropClosed(n, evals, ssLeft, ve) ==
   /\ Abs(SeqSum(ve) - One) <= SumTol(n, evals)
 PropFinish(n, evals, ssLeft, isFull, ve) == PropVarexp(n, evals, ve) /\ (isFull => PropClosed(n, evals, ssLeft, ve))
 PropProject(err) == err <= TolAlg
+PropResidual(err) == err <= TolAlg
 (* back-transformation, measured in units of |E0|: X itself is only representable to one ulp of its entries, which in those units is   *)
 (* repr (logged from the input alone; up to 1e-8 for locations 1e6 over spreads 0.02) - the identity cannot hold better than that      *)
 PropBack(err, repr) == err <= TolAlg + 4 * Min2(repr, 100000)
